@@ -38,6 +38,9 @@ pub struct TxSpec {
     pub tx_type: u8,
     pub auths: Vec<AuthSpec>,
     pub access_list: Vec<(Address, Vec<B256>)>,
+    /// EIP-4844 (transaction type 3): versioned blob hashes and the blob fee cap
+    pub blob_hashes: Vec<B256>,
+    pub max_fee_per_blob_gas: u128,
     /// Free-form label from the generator (what the transaction is meant to do); not semantic.
     pub label: String,
 }
@@ -51,6 +54,8 @@ pub struct BlockSpec {
     pub basefee: u64,
     pub prevrandao: B256,
     pub difficulty: U256,
+    /// EIP-4844 excess blob gas of the block (decides the blob gas price; 0 = price 1)
+    pub excess_blob_gas: u64,
 }
 
 #[derive(Clone, Debug, PartialEq)]
@@ -286,11 +291,16 @@ impl TxSpec {
                 "chain_id": x.chain_id, "address": a(&x.address), "nonce": x.nonce,
                 "authority": x.authority.as_ref().map(a)})).collect::<Vec<_>>(),
             "access_list": self.access_list.iter().map(|(ad, keys)| json!([a(ad), keys.iter().map(h).collect::<Vec<_>>()])).collect::<Vec<_>>(),
+            "blob_hashes": self.blob_hashes.iter().map(h).collect::<Vec<_>>(),
+            "max_fee_per_blob_gas": self.max_fee_per_blob_gas.to_string(),
             "label": self.label,
         })
     }
     pub fn from_json(v: &Value) -> Self {
         Self {
+            // both absent in replay files written before blob transactions existed
+            blob_hashes: v["blob_hashes"].as_array().map(|l| l.iter().map(ph).collect()).unwrap_or_default(),
+            max_fee_per_blob_gas: v["max_fee_per_blob_gas"].as_str().map(|s| s.parse().unwrap()).unwrap_or(0),
             caller: pa(&v["caller"]),
             to: if v["to"].is_null() { None } else { Some(pa(&v["to"])) },
             value: pu(&v["value"]),
@@ -328,7 +338,7 @@ impl BlockSpec {
         json!({
             "number": self.number, "beneficiary": a(&self.beneficiary), "timestamp": self.timestamp,
             "gas_limit": self.gas_limit, "basefee": self.basefee, "prevrandao": h(&self.prevrandao),
-            "difficulty": u(&self.difficulty),
+            "difficulty": u(&self.difficulty), "excess_blob_gas": self.excess_blob_gas,
         })
     }
     pub fn from_json(v: &Value) -> Self {
@@ -340,6 +350,7 @@ impl BlockSpec {
             basefee: pn(&v["basefee"]),
             prevrandao: ph(&v["prevrandao"]),
             difficulty: pu(&v["difficulty"]),
+            excess_blob_gas: v["excess_blob_gas"].as_u64().unwrap_or(0),
         }
     }
 }
@@ -446,7 +457,7 @@ impl Scenario {
     pub fn empty() -> Self {
         Self {
             evm: EvmSpec { spec: SpecId::SHANGHAI, chain_id: 1, disable_nonce_check: false },
-            block: BlockSpec { number: 0, beneficiary: Address::ZERO, timestamp: 0, gas_limit: 0, basefee: 0, prevrandao: B256::ZERO, difficulty: U256::ZERO },
+            block: BlockSpec { number: 0, beneficiary: Address::ZERO, timestamp: 0, gas_limit: 0, basefee: 0, prevrandao: B256::ZERO, difficulty: U256::ZERO, excess_blob_gas: 0 },
             pre_state: vec![],
             block_hashes: vec![],
             txs: vec![],
